@@ -183,6 +183,16 @@ def tr_safety(run):
         m = re.search(r"if\s*\(\s*'_'\s*==\s*" + var + r"\s*\[\s*(\d+)\s*\]\s*\)\s*\{\s*\w+\s*=\s*&\s*" + var + r"\s*\[\s*(\d+)\s*\]\s*;", fbody)
         if m:
             return False, b"LOG_", int(m.group(2)), int(m.group(2))
+        # the skip may live in a file-local helper:  <adj> = helper(<var>);  helper(p) { if (0 == strncmp(p, LIT, N)) { return &p[K]; } return p; }
+        mh = re.search(r"\w+\s*=\s*(\w+)\s*\(\s*" + var + r"\s*\)\s*;", fbody)
+        if mh and re.search(r"^\s*static\s+[\w\s\*]+?\b" + mh.group(1) + r"\s*\(", sl, re.M):
+            hdr = re.search(r"\b" + mh.group(1) + r"\s*\(\s*(?:const\s+)?char\s*(?:const\s*)?\*\s*(?:const\s+)?(\w+)\s*\)\s*\{", sl)
+            hb = func_body(sl, mh.group(1)) or ""
+            if hdr:
+                p_ = hdr.group(1)
+                m = re.fullmatch(r"\s*if\s*\(\s*0\s*==\s*strncmp\s*\(\s*" + p_ + r"\s*,\s*" + STR + r"\s*,\s*(\d+)\s*\)\s*\)\s*\{\s*return\s*&\s*" + p_ + r"\s*\[\s*(\d+)\s*\]\s*;\s*\}\s*return\s+" + p_ + r"\s*;\s*", hb)
+                if m:
+                    return True, c_unescape(m.group(1)), int(m.group(2)), int(m.group(3))
         return None
     fi = prefix_info(func_body(sl, "snoopy_util_syslog_convertFacilityToInt") or "", "facilityStr")
     li = prefix_info(func_body(sl, "snoopy_util_syslog_convertLevelToInt") or "", "levelStr")
